@@ -57,3 +57,21 @@ TEXT = dict(
     text='C06: size = marshalled length, unmarshal . marshal = wire normal form, tag/accessor separation, for all values of the 24 types and both byte orders; U+FFFD removal (F02) reproduced as a known finding. typedef.Bool arrays (KF-C01-boolarr, repaired in /repo 5da5106): C06_unmarshal_bool_array — for ANY bytes the array read of a profile-bool field returns one element per byte, element i being what the scalar read of byte i returns, all in {0, 1, 255}; C06_unmarshal_reencode — for ANY bytes, EVERY base type (strings included: what utf8String returns is NUL-free valid UTF-8 without U+FFFD, Fit.Utf8.utf8String_good, on which it is the identity), any bool / array flags and any two byte orders, the value UnmarshalValue returned can be marshalled and reads back as itself (value layer of "re-encoding what the decoder returned"; evaluated on the implementation by the ops unmre). STRINGS — domain made explicit: the round-trip theorem C06_unmarshal_marshal_partial assumes `clean` (valid UTF-8 without U+FFFD), which leaves out (1) valid UTF-8 containing U+FFFD: inside the property, finding KF-C06-1; (2) byte strings that are not valid UTF-8 (class notUtf8): outside the property — a FIT string is UTF-8, the encoder refuses such a string (C10) and never writes one, proto.utf8String documents that it discards what does not decode; C06_unmarshal_marshal_actual states what the code returns for ALL strings, both classes included (readBack: utf8String of the bytes), C06_readBack_clean that this is the normal form on clean strings. ANY (wrap -> unwrap, reflection path included): C06_any_reflect_agrees — for every Go value (unnamed basic type, named type over any of them incl. every typedef type and slices of them, behind a pointer, names of names) proto.Any returns what the typed constructor returns for the value seen by kind; C06_any_wrap_unwrap — proto.Any(v).Any() is the content unchanged as the unnamed Go type of its kind (a Go bool as typedef.Bool 0/1, a typedef.Bool outside {0,1} as BoolInvalid, unsupported kinds nil); C06_any_unsupported; C06_any_names_transparent; guard: no float32 scalar signalling NaN through reflection (float32(rv.Float()) quiets it).',
     note='Trusted: Lean kernel; the consts translator; the harness/driver line protocol; the model of unicode/utf8 (tied, documented behaviour); the reflection path of proto.Any is described by kind in the model and proved about; that package reflect behaves as described is tied by the ops vany.',
 )
+
+# --- tie by translation (translators/go2lean, notes/go2lean.md; agreement theorems in lean/FitProps/C06Go2Lean.lean).
+# Kept as a separate block so that it never collides with edits of the dictionary above.
+PROP['regen'] = PROP['regen'] + ['go2lean:basetype']
+PROP['go2lean_diff'] = ['Basetype']      # lean/Go2LeanDiff/<Topic>.lean: search for a differing argument when an agreement theorem breaks
+PROP['theorems'] = PROP['theorems'] + [
+    'Fit.C06.C06_go2lean_sizes',
+    'Fit.C06.C06_go2lean_size',
+    'Fit.C06.C06_go2lean_valid',
+    'Fit.C06.C06_go2lean_list',
+    'Fit.C06.C06_go2lean_spec_size',
+    'Fit.C06.C06_go2lean_spec_valid',
+    'Fit.C06.C06_go2lean_spec_list',
+    'Fit.C06.C06_go2lean_spec_names',
+    'Fit.C06.C06_go2lean_consts',
+    'Fit.C06.C06_go2lean_spec_field']
+PROP['trusted_base'] = PROP['trusted_base'] + [
+    "translators/go2lean (Go→Lean for a small subset of Go, notes/go2lean.md) re-translates profile/basetype/basetype.go (sizes table, Size, Valid, List, String, FromString) from the current source on every run; the agreement theorems *_go2lean_* state that the translated functions equal the hand-written model functions for all arguments; trusted: the translator's rendering of the subset (go/types computes constants and types) and FitModel/GoPrelude.lean"]
